@@ -17,9 +17,11 @@ def random_sim_case(rng, kind="sim", small=True, algos=ALGOS, allow_pp_single=Fa
     # durations need not be a whole number of ticks (the run then covers floor(duration * tps) ticks)
     duration = (max_ticks + rng.choice([0, 0, 0, 0.25, 0.5])) / tps
     if pools is None:
-        pools = 2 if algo == "priority-pool" else rng.choice([1, 1, 2, 3, 4])
-    cpus = rng.choice([1, 2, 4, 10, 64] if small else [4, 10, 64])
-    ram = rng.choice([0.5, 1, 4, 16, 30, 64] if small else [16, 64, 256])
+        pools = 2 if algo == "priority-pool" else (rng.choice([1, 1, 2, 3, 4]) if rng.random() < 0.9 else rng.choice([8, 16, 33]))
+    cpus = rng.choice([1, 2, 4, 10, 64] if small else [4, 10, 64]) if rng.random() < 0.95 else rng.choice([1000, 4096])
+    ram = rng.choice([0.5, 1, 4, 16, 30, 64] if small else [16, 64, 256]) if rng.random() < 0.95 else rng.choice([0.1, 2048, 8192])
+    if rng.random() < 0.12:
+        ram = rng.choice([0.75, 1.5, 2.5, 7.25, 30.7])      # pool sizes need not be whole GB
     multi = rng.random() < 0.6
     if algo == "priority-pool" and not allow_pp_single:
         multi = True
@@ -27,7 +29,7 @@ def random_sim_case(rng, kind="sim", small=True, algos=ALGOS, allow_pp_single=Fa
         "duration": duration, "ticks_per_second": tps, "num_pools": pools, "cpus_per_pool": cpus, "ram_gb_per_pool": ram,
         "multi_operator_containers": multi,
         "allow_memory_overcommit": True if algo == "overbook" else (rng.random() < 0.2),
-        "random_seed": rng.randint(0, 10 ** 6),
+        "random_seed": rng.randint(0, 10 ** 6) if rng.random() < 0.9 else rng.choice([0, 0, 2 ** 32 - 1, 2 ** 40]),
     }
     if algo == "vrandom":
         params["vrandom_seed"] = rng.randint(0, 10 ** 9)
